@@ -31,6 +31,68 @@ CHECKS = {
         technique="Lean 4 proof over a polymorphic write-back skeleton + differential correspondence",
         design="§4 C08",
     ),
+    "C05": dict(
+        text=("Proof (Lean 4), layer S: a model of Debiaser.apply / DeltaChange.apply (np.ndindex order, column write-back with numpy's broadcasting, "
+              "the starmap pool as a slot model with an explicit completion schedule) for an arbitrary element type and location function: the result "
+              "has the shape of cm_future (obs for DeltaChange), column (i,j) equals the location function on cell (i,j) alone, cells are independent, a "
+              "wrong-length result is an error, and parallel = serial for EVERY completion schedule. Tied to the code by a picklable probe debiaser (bare "
+              "Debiaser subclass and DeltaChange subclass) run through the real apply, serial and parallel (1,2,3,5 processes), and by comparing each real "
+              "debiaser's apply bitwise with its stacked apply_location."),
+        note=("Partial by nature: process start, pickling and per-worker RNG state are runtime and not modelled; 'any completion order' is proved relative "
+              "to the starmap slot model (results collected by argument index, first completed exception wins). Trusted: numpy column-assignment broadcasting, np.ndindex order."),
+        technique="Lean 4 proof over a polymorphic grid/pool model + differential correspondence",
+        design="§4 C05",
+    ),
+    "C11": dict(
+        text=("Proof (Lean 4): P_obs_future lies in [0,1] for all frequencies in [0,1]^3, equals the observed frequency when cm_future = cm_hist (up to the "
+              "code's own isclose branch, stated exactly), equals the future frequency when cm_hist and obs agree, observed frequency when adjustment is off; "
+              "round(n*P) in [0,n]; rescaled counts sum to n and are non-negative; exactly n_l / n_u outputs sit at the bounds. All four kernels are regenerated "
+              "from /repo on every run (tier A) and proved equal to the model; the real functions are compared on complete rational grids k/n and the real step6 "
+              "is run for pr / hurs / prsnratio with recorded counts and masks."),
+        note=("Trusted: Lean kernel + standard axioms; translator (round = half-even, np.isclose defaults); np.argsort / boolean-mask assignment and Python slice semantics as modelled "
+              "(validated exhaustively for n <= 12); the values written between the bounds are a parameter of the model (C09/C10)."),
+        technique="Lean 4 proof over Rat/Int kernels regenerated from source + exhaustive grid correspondence",
+        design="§4 C11",
+    ),
+    "C13": dict(
+        text=("Proof (Lean 4) on the grid model of C05: for every subset of failing cells, every grid size and every execution mode, failsafe=True returns an array with the "
+              "NaN column exactly at the failing cells and the clean value everywhere else (cell by cell equal to a run in which nothing fails); failsafe=False returns no array "
+              "and raises the error of the first failing cell in row-major order (serial) / of the first failing task in completion order (parallel). Tied to the code by running all "
+              "2^(x*y) subsets of small grids through the real apply with a bare user-defined failing debiaser and with built-in failures (non-finite data rejected by scipy fits), serial and parallel."),
+        note="Partial as C05 (pool runtime not modelled). Trusted: slot model of Pool.starmap; which worker's exception surfaces in parallel is schedule dependent (the oracle accepts any failing cell's class).",
+        technique="Lean 4 proof over a polymorphic grid/pool model + exhaustive subset correspondence",
+        design="§4 C13",
+    ),
+    "C16": dict(
+        text=("Proof (Lean 4) about the shared numeric toolkit Model/Stats (a transcription of ibicus.utils.ecdf / iecdf — ibicus' own IECDF and the eight np.quantile methods — "
+              "np.interp, the quantile maps, sort_array_like_another_one): ecdf range / monotonicity / =1 at the maximum (step, linear; histogram under explicit oracle laws on the bins), "
+              "iecdf range / monotonicity / min at 0 / max at 1 for all nine methods (generic in alpha, beta for the continuous family), monotone quantile maps into the target range with "
+              "the constant shift outside the source range, equal-size reproduction for exactly the six method pairs for which it is true (the other twelve refuted by a complete decide table), "
+              "sortLike is a permutation ordered like its reference. Tied by running all 3 x 9 method pairs of the real helpers against the driver on small samples with ties and extreme magnitudes."),
+        note=("Trusted: numpy / statsmodels / scipy sort, quantile, interp, histogram, ECDF, rv_histogram, rankdata are modelled, not verified; histogram bin edges are an oracle argument re-checked on numpy's "
+              "bins every run; float rounding is carried by the tolerance and by counted discontinuity ties. Known finding F15 (constant sample, kernel_density) is printed as KNOWN-FINDING."),
+        technique="Lean 4 proof over a rational model of the toolkit + differential correspondence over all method pairs",
+        design="§4 C16",
+    ),
+    "C17": dict(
+        text=("Proof (Lean 4) over an abstract amounts family (strictly increasing cdf on (0,inf) with inverse ppf) and for EVERY random draw in the documented range: hurdle model p0 = fraction of zeros, "
+              "wet round trip, dry -> exactly 0 with and without randomisation, cdf range and monotonicity; ignore-zeros model on Q u {-inf}; censored gamma round trip above the threshold and dry -> 0 "
+              "(censor_in_ppf) / -> the draw (without); the three-way factory. Non-vacuity: a rational family proved to satisfy the laws. Tied by running the real model classes with a rational "
+              "rv_continuous test double, captured np.random.uniform draws and recorded scipy gamma cdf/ppf values."),
+        note="Trusted: scipy families are assumed to satisfy the amounts laws; MLE / Nelder-Mead fits are outside the model; np.random.uniform's range as documented.",
+        technique="Lean 4 proof relative to family laws + differential correspondence with captured draws",
+        design="§4 C17",
+    ),
+    "C19": dict(
+        text=("Proof (Lean 4): the instance array is exactly the defining comparison (4 types x global/local x overall/time group, ValueError exactly for a missing group), probabilities are per-location means, "
+              "annual counts / spell lengths (the literal numpy diff-where trick proved equal to a run-length encoder) / spatial extents x cells / cluster sizes (labelling as an oracle with a law checked on scipy's labels) "
+              "conserve the number of instances, accumulative metrics sum over exactly the exceeding steps with the percentage in [0,100], the filter returns a fresh buffer, and a quantile-defined threshold is exceeded by "
+              "exactly n-1-floor(q(n-1)) values of a tie-free sample. Tier B only (array pipeline code): every public method of ThresholdMetric / AccumulativeThresholdMetric against the driver."),
+        note=("Trusted: scipy.ndimage.label (oracle law re-checked per case), np.quantile(linear) / pandas merge / np.unique transcribed; calendar codes computed by Python; numpy aliasing observed "
+              "(np.shares_memory + byte comparison), not modelled."),
+        technique="Lean 4 proof over a grid model of the metrics + differential correspondence",
+        design="§4 C19",
+    ),
 }
 
 
